@@ -181,13 +181,37 @@ type VPred func(ssa.Value) bool
 type EdgePred func(cond ssa.Value, branch bool) bool
 
 func stripNot(cond ssa.Value, branch bool) (ssa.Value, bool) {
-	for {
-		u, ok := cond.(*ssa.UnOp)
-		if !ok || u.Op != token.NOT {
-			return cond, branch
+	for i := 0; i < 8; i++ {
+		if u, ok := cond.(*ssa.UnOp); ok && u.Op == token.NOT {
+			cond, branch = u.X, !branch
+			continue
 		}
-		cond, branch = u.X, !branch
+		// a boolean helper that is looked through (`if p.isClosed()`): the condition is what the helper returned
+		if c, ok := cond.(*ssa.Call); ok {
+			if callee := transparentCallee(c); callee != nil && callee.Signature.Results().Len() == 1 {
+				var rets []*ssa.Return
+				if only, bound := resultEnv[c]; bound && only != nil {
+					rets = []*ssa.Return{only}
+				} else {
+					for _, r := range returnsOf(callee) {
+						if !isRecoverReturn(r) {
+							rets = append(rets, r)
+						}
+					}
+				}
+				if len(rets) == 1 {
+					if rv := resOf(rets[0], 0); rv != nil {
+						if _, isConst := rv.(*ssa.Const); !isConst {
+							cond = rv
+							continue
+						}
+					}
+				}
+			}
+		}
+		return cond, branch
 	}
+	return cond, branch
 }
 
 // factTrue: the edge establishes that a boolean value recognised by m is true (false when want is false).
@@ -697,7 +721,11 @@ func (c *provCtx) walk(v ssa.Value, idx int) {
 				ri = 0
 			}
 			n := 0
-			for _, r := range returnsOf(callee) {
+			rets := returnsOf(callee)
+			if only, ok := resultEnv[x]; ok && only != nil {
+				rets = []*ssa.Return{only} // on the path being explored the helper came back through this return
+			}
+			for _, r := range rets {
 				if isRecoverReturn(r) {
 					continue
 				}
